@@ -52,6 +52,66 @@ fn capacity_case(c: usize, fill: bool) -> Result<usize, String> {
     Ok(l0)
 }
 
+/// Small tables: starting from the smallest tables the API can produce, collision-free keys are
+/// inserted one by one; the table may double (once) only on the insert that brings the entry count
+/// to three quarters of its length (n - n/4 entries), never earlier and never by more.
+fn small_ladder(start: u8) -> Result<(String, usize), String> {
+    let (name, m): (&str, UMap) = match start {
+        0 => ("reserve(0) on a fresh map", {
+            let m: UMap = HashMap::with_hasher(HB::new(IDENTITY));
+            m.reserve(0, &m.guard());
+            m
+        }),
+        1 => ("reserve(1) on a fresh map", {
+            let m: UMap = HashMap::with_hasher(HB::new(IDENTITY));
+            m.reserve(1, &m.guard());
+            m
+        }),
+        2 => ("with_capacity(1)", HashMap::with_capacity_and_hasher(1, HB::new(IDENTITY))),
+        3 => ("with_capacity(2)", HashMap::with_capacity_and_hasher(2, HB::new(IDENTITY))),
+        4 => ("with_capacity(3)", HashMap::with_capacity_and_hasher(3, HB::new(IDENTITY))),
+        5 => ("extend with an empty iterator on a fresh map", {
+            let m: UMap = HashMap::with_hasher(HB::new(IDENTITY));
+            (&m).extend(std::iter::empty::<(u64, u64)>());
+            m
+        }),
+        6 => ("collect of one element", {
+            flurry_default_identity();
+            std::iter::once((0u64, 0u64)).collect::<UMap>()
+        }),
+        _ => ("a fresh map (first insert creates the default table)", HashMap::with_hasher(HB::new(IDENTITY))),
+    };
+    let g = m.guard();
+    let mut len = m.verif_table_len(&g);
+    let first = len;
+    let start_count = m.len() as u64;
+    for i in 0..80u64 {
+        let k = start_count + i;
+        m.insert(k, k, &g);
+        let c = m.len();
+        let l = m.verif_table_len(&g);
+        if len == 0 {
+            // the lazily created table: 16 bins by default
+            if l != 16 {
+                return Err(format!("{name}: the first insert created a table of {l} bins, expected the default 16"));
+            }
+        } else if l != len {
+            if l != 2 * len {
+                return Err(format!("{name}: the insert of entry {c} changed the table from {len} to {l} bins (collision-free keys: at most one doubling per insert)"));
+            }
+            if c < len - len / 4 {
+                return Err(format!("{name}: the table grew from {len} to {l} bins at {c} entries, before the count reached three quarters of its length ({})", len - len / 4));
+            }
+        }
+        len = l;
+    }
+    Ok((name.to_string(), first))
+}
+
+fn flurry_default_identity() {
+    set_default_mode(IDENTITY);
+}
+
 /// reserve(a) on a map holding `fill` entries: `a` further collision-free keys fit.
 fn reserve_case(cap: usize, fill: u64, a: u64) -> Result<(usize, usize), String> {
     let m: UMap = HashMap::with_capacity_and_hasher(cap, HB::new(IDENTITY));
@@ -197,6 +257,23 @@ pub fn run(ctx: &Ctx) -> Outcome {
                 }
                 Ok(Err(e)) | Err(e) => {
                     out.violate("c14/capacity-max", format!("capacity {c}: {e}"), Json::obj().with("check", Json::s("c14")).with("capacity", Json::u(c)));
+                    return out;
+                }
+            }
+        }
+    }
+    // ---- small-table growth ladders
+    if ctx.shard == 0 {
+        for start in 0..8u8 {
+            out.evaluations += 1;
+            out.add("small_table_ladders", 1);
+            match guarded(|| small_ladder(start)) {
+                Ok(Ok((name, first))) => {
+                    out.distinct.insert(fnv(FNV_OFFSET ^ 0x1ad, start as u64));
+                    out.list("small_table_ladder_starts", &format!("{name}: {first} bins"));
+                }
+                Ok(Err(e)) | Err(e) => {
+                    out.violate("c14/small-ladder", e, Json::obj().with("check", Json::s("c14")).with("part", Json::s("small-ladder")).with("start", Json::u(start)));
                     return out;
                 }
             }
